@@ -90,6 +90,8 @@ VF_E CH const* sv_cbegin(SV const& h) { return h.cbegin(); }
 VF_E CH const* sv_cend(SV const& h) { return h.cend(); }
 VF_E CH const* sv_rbegin_base(SV const& h) { return h.rbegin().base(); }
 VF_E CH const* sv_rend_base(SV const& h) { return h.rend().base(); }
+VF_E CH const* sv_crbegin_base(SV const& h) { return h.crbegin().base(); }
+VF_E CH const* sv_crend_base(SV const& h) { return h.crend().base(); }
 VF_E size_type sv_npos() { return SV::npos; }
 
 // ---- contract mode (contracts.spec names the char instantiation): make sure it is lowered in every variant
